@@ -378,4 +378,16 @@ R.add('L9.5', l95, lambda tier: [dict(n=n) for n in ((2, 255, 256, 300) if tier 
       replay=replay_l95, desc='hundreds of tiny messages per tick: construction never raises, nothing lost',
       expect=['every queued message eventually packed'], bounds='n in {2,255,256,300} (thorough up to 600), lengths 0..2')
 
+# ------------------------------------------------------------------ L9.6 packing never wedges on what send() queues
+# "packet construction never fails or loses messages" includes the messages the library itself produces: whatever
+# send() queues for a payload of any length (single message or fragments) must be admitted by the packer - a message
+# larger than an empty packet would sit in the queue for ever.  Same harness as C05 L5.2 (send, then one build per tick).
+from . import c05 as _c05  # noqa: E402
+
+R.add('L9.6', _c05.l52, lambda tier: [dict(maxfrag=(3 if tier == 'quick' else 8))], replay=_c05.replay_l52,
+      desc='send() of any length, then one packet per tick: every queued message is admitted by the packer (the queue drains), '
+           'for every MTU',
+      expect=['no payload size is left unsent: the queue drains'],
+      bounds='L <= MAX_PAYLOAD_SIZE + 3 (thorough 8) * MAX_FRAGMENT_SIZE, MTU 512..1500')
+
 get_harness = R.get_harness
